@@ -46,6 +46,27 @@ def applicable_tasks(tier: str, seed: int, cap=None) -> List[dict]:
     return tasks
 
 
+def applicable_again_tasks(tier: str, seed: int, cap=None) -> List[dict]:
+    """the verdict must be about the state asked about, whatever the operator object was asked before: programs with a
+    numeric comparison, queried after a query on another state with the same facts and independent fluent values"""
+    cap = cap or (8 if tier == "quick" else 10)
+    tasks = []
+    seen = 0
+    for pl, const, pre, origin in pre_programs(tier, seed):
+        text_pre = render(pre)
+        if not any(k in text_pre for k in ("(f ", "(g)", "(h ")):
+            continue
+        seen += 1
+        if tier == "quick" and seen % 4:
+            continue
+        params = G.PARAM_LISTS[pl]
+        text = G.domain_text([("act", params, pre, ["and"])], const=const)
+        for args in G.arg_tuples(params, const, limit=1 if tier == "quick" else 2):
+            tasks.append(_mk(text, args, "applicable", "AGAIN " + text_pre, cap=cap, origin=origin, const=const,
+                             after_other_state=True))
+    return tasks
+
+
 def apply_tasks(tier: str, seed: int, cap=None, orders=None) -> List[dict]:
     cap = cap or (8 if tier == "quick" else 11)
     lim = 3 if tier == "quick" else 4
